@@ -1,7 +1,5 @@
 package main
 
-import "fmt"
-
 type AorB interface {
 	AorB_Union()
 }
